@@ -66,8 +66,7 @@ Definition unmarshal_headers_stream (src : bytes) : res (list hpair * bytes) :=
   do (sb, src1) <- read_full src 4;
   let size := as_int32 (un_be32 sb) in
   if size <? 0 then Err EInvalidData else
-  do _ <- make_bytes size;
-  do (buff, src2) <- read_full src1 size;
+  do (buff, src2) <- read_full src1 size;     (* io.CopyN into a growing buffer *)
   do ps <- read_pairs (pairs_fuel buff) buff 0 size [];
   Ok (ps, src2).
 
